@@ -9,7 +9,7 @@
     generators.  Small configurations are tried too (the generator is documented for any num_sets)."""
 import time
 
-from vt.c18_util import FixedSampler, coq_cases, ensure_dirs, interleave, natmat, patched, queue_fn, quiet_logs, zlist, zs_floor, zzmat, fr
+from vt.c18_util import FixedSampler, coq_cases, ensure_dirs, natmat, patched, queue_fn, quiet_logs, run_jobs, zlist, zs_floor, zzmat, fr
 from vt.common import cq, cz
 
 HEADER = ("From Coq Require Import List ZArith QArith.\nFrom RL4CO Require Import Harness.HC18_graph.\n"
@@ -47,7 +47,8 @@ def run_unit(ctx, proofs_ok):
             B = 3
             q = rng.randint(1, n_sets)
             su = [[rng.choice([float(rng.randint(mins - 1, maxs + 2)), rng.randint(mins * 4, (maxs + 1) * 4) / 4.0]) for _ in range(n_sets)] for _ in range(B)]
-            su[rng.randrange(B)][rng.randrange(n_sets)] = maxs + 0.5          # the generator needs one set of full size in the batch
+            if rep % 2 == 0:     # no set of the batch reaches max_size (the configuration that crashed before repo commit 78ab0ce)
+                su = [[min(x, maxs - 0.5) if maxs > mins else x for x in row] for row in su]
             wu = [[rng.choice([float(rng.randint(minw - 1, maxw + 2)), rng.randint(minw * 4, (maxw + 1) * 4) / 4.0]) for _ in range(n_items)] for _ in range(B)]
             raw = [[[rng.randint(1, n_items) for _ in range(maxs)] for _ in range(n_sets)] for _ in range(B)]
             su_t, wu_t, raw_t = torch.tensor(su, dtype=torch.float32), torch.tensor(wu, dtype=torch.float32), torch.tensor(raw)
@@ -57,10 +58,13 @@ def run_unit(ctx, proofs_ok):
             try:
                 with patched(torch, "randint", queue_fn([raw_t], log)):
                     td = g([B])
-                if log and tuple(log[0][0][:2]) != (1, n_items + 1):
+                if log and (tuple(log[0][0][:2]) != (1, n_items + 1) or tuple(log[0][0][2]) != (B, n_sets, maxs)):
                     ctx.broken.append("correspondence C18/graph/mcp: membership is drawn by randint%s, the theorem assumes randint(1, num_items + 1)" % (log[0][0][:2],))
             except Exception as e:
                 ctx.broken.append("correspondence C18/graph/mcp: generator raised on in-range draws: %r" % (e,))
+                if isinstance(e, RuntimeError):
+                    ctx.failure(SIG["mcp_crash"], {"unit": "graph", "gen": "mcp", "kind": "crash_chosen_draws", "params": [n_items, n_sets, mins, maxs, minw, maxw, q],
+                                                   "size_draws": su, "expected": "a TensorDict with membership [B, num_sets, max_size]", "observed": repr(e)[:300]}, tag="mcp")
                 continue
             sizes = torch.clamp(torch.floor(su_t).long(), mins, maxs)
             cut = raw_t * (torch.arange(maxs).view(1, 1, -1) < sizes.unsqueeze(-1))
@@ -84,10 +88,13 @@ def run_unit(ctx, proofs_ok):
     confs = [dict(), dict(num_items=50, num_sets=40, n_sets_to_choose=5), dict(num_items=20, num_sets=30, min_size=2, max_size=4, n_sets_to_choose=30),
              dict(num_items=12, num_sets=3, n_sets_to_choose=2), dict(num_items=20, num_sets=2, n_sets_to_choose=1), dict(num_items=8, num_sets=6, min_size=1, max_size=8, n_sets_to_choose=3)]
     crashes = 0
-    for kw in confs:
-        for rep in range(8 if thorough else 2):
+    plan = [(kw, 4 if thorough else 2) for kw in confs for rep in range(8 if thorough else 2)]
+    if thorough:      # bulk: 10^4 small rows (batches in which often no set reaches max_size)
+        plan += [(dict(num_items=12, num_sets=4, min_size=1, max_size=4, n_sets_to_choose=2), 1000)] * 6 + \
+                [(dict(num_items=9, num_sets=3, min_size=2, max_size=5, n_sets_to_choose=3), 1000)] * 4
+    for (kw, B) in plan:
+        if True:
             s = seed()
-            B = 4 if thorough else 2
             g = MCPGenerator(**kw)
             draws = []
             real_randint = torch.randint
@@ -120,8 +127,7 @@ def run_unit(ctx, proofs_ok):
                 w = [int(x) for x in td["weights"][b].tolist()]
                 cases.append("(%d%%nat, %s, %s, %s, %s, %s, %s, %s)" % (g.num_items, cz(g.min_weight), cz(g.max_weight), cz(g.min_size), cz(g.max_size),
                                                                        cz(int(td["n_sets_to_choose"][b, 0])), zzmat(mem), zlist(w)))
-                metas.append({"unit": "graph", "gen": "mcp", "kind": "generated", "kwargs": kw, "torch_seed": s, "batch": B, "row": b,
-                              "membership": mem if len(mem) <= 10 else mem[:10], "weights": w[:30]})
+                metas.append({"unit": "graph", "gen": "mcp", "kind": "generated", "kwargs": kw, "torch_seed": s, "batch": B, "row": b})
                 ctx.seen({"mcp_a": [s, b, kw]}, nontrivial=True)
                 ctx.count("mcp_generated_rows")
     ctx.count("mcp_generator_crashes", crashes)
@@ -129,9 +135,11 @@ def run_unit(ctx, proofs_ok):
 
     # ------------------------------------------------------------------ (a) FLP
     cases, metas = [], []
-    for kw in [dict(num_loc=5, to_choose=2), dict(num_loc=12, to_choose=12), dict(num_loc=25, to_choose=3)] + ([dict()] if thorough else [dict(num_loc=40, to_choose=10)]):
+    fplan = [(kw, 2) for kw in [dict(num_loc=5, to_choose=2), dict(num_loc=12, to_choose=12), dict(num_loc=25, to_choose=3)] + ([dict()] if thorough else [dict(num_loc=40, to_choose=10)])]
+    if thorough:
+        fplan += [(dict(num_loc=5, to_choose=2), 1000)] * 6 + [(dict(num_loc=4, to_choose=4), 1000)] * 4
+    for (kw, B) in fplan:
         s = seed()
-        B = 2
         g = FLPGenerator(**kw)
         td = g([B])
         n = g.num_loc
@@ -151,15 +159,9 @@ def run_unit(ctx, proofs_ok):
     jobs.append(("flp_prop", "nat * list (list Z) * list Z * Z", "check_flp_prop", cases, metas, "flp"))
 
     # ------------------------------------------------------------------ evaluate
-    from concurrent.futures import ThreadPoolExecutor
     t1 = time.time()
-
-    def one(job):
-        label, ctype, fn, cs, ms, sig = job
-        cs, ms = interleave(cs, ms, 2)
-        return ms, coq_cases(ctx, "graph_" + label, HEADER, ctype, fn, cs, ms, shard=max(1, (len(cs) + 1) // 2))
-    with ThreadPoolExecutor(max_workers=4) as ex:
-        results = list(ex.map(one, jobs))
+    res = run_jobs(ctx, "graph", HEADER, [(l, t, f, c, m) for (l, t, f, c, m, sg) in jobs], cap=700 if thorough else 60)
+    results = [(ms, res.get(label)) for (label, _, _, cs, ms, sg) in jobs]
     stats = {}
     for (label, _, _, cs, _, sig), (ms, codes) in zip(jobs, results):
         st = {"cases": len(cs)}
